@@ -46,6 +46,8 @@ class Harness:
     prop_clauses: dict = dataclasses.field(default_factory=dict)   # property -> the ONLY clauses that count for it (default: all clauses)
     native_replays: dict = dataclasses.field(default_factory=dict)   # clause -> driver script forcing the schedule on the real code
     replayable: bool = True
+    sizes_only: bool = False         # every loop runs natively over concrete containers of stated small sizes: an exhaustive
+                                    # small-scope check in effect -- labelled B (bounded) in the evidence, never counted as proved
 
 
 REGISTRY: dict[str, Harness] = {}
